@@ -42,6 +42,11 @@ pub struct RootCase {
     /// blocks only, all later files to unnamed blocks only (needs both kinds; no spreading)
     #[serde(default)]
     pub named_first: Option<u16>,
+    /// V2-V4: blocks of unnamed records do NOT carry the NO_NAME_HASH flag (a caller passes plain
+    /// content flags and no path); what comes back as their name hash is not prescribed and not
+    /// compared, the records and everything behind them in the file are
+    #[serde(default)]
+    pub unnamed_flag_clear: bool,
     pub seed: u64,
 }
 
@@ -107,7 +112,7 @@ pub fn effective_blocks(c: &RootCase) -> Vec<(u32, u64, bool)> {
     for b in &c.blocks {
         let named = b.named || v1;
         let mut content = b.content & mask & !NO_NAME_HASH;
-        if !named {
+        if !named && !c.unnamed_flag_clear {
             content |= NO_NAME_HASH;
         }
         if !out.iter().any(|x| x.0 == b.locale && x.1 == content) {
@@ -261,6 +266,18 @@ pub fn check(c: &RootCase) -> Verdict {
     for v in scan.values_mut() {
         v.sort_by_key(|r| r.fdid);
     }
+    if c.unnamed_flag_clear {
+        // blocks whose records were inserted without a name: the hash column is not compared
+        for (k, recs) in &model.blocks {
+            if recs.iter().all(|r| r.hash.is_none()) {
+                if let Some(v) = scan.get_mut(k) {
+                    for r in v {
+                        r.hash = None;
+                    }
+                }
+            }
+        }
+    }
     if scan != model.blocks {
         let nrec: usize = scan.values().map(Vec::len).sum();
         bail!(key("C03:root:parsed-records-differ-from-inserted"), "{how}: parsed version {:?}, {} blocks, {} records", parsed.version, parsed.blocks.len(), nrec);
@@ -379,6 +396,10 @@ pub fn check(c: &RootCase) -> Verdict {
         }
         for h in [f.hash ^ 1, f.hash.wrapping_add(1)] {
             if hashes.contains(&h) {
+                continue;
+            }
+            // unnamed records in a block whose flags announce name hashes are stored with hash 0
+            if c.unnamed_flag_clear && h == 0 {
                 continue;
             }
             if parsed.resolve_by_hash(h, LocaleFlags::new(LocaleFlags::ALL), ContentFlags::new(0)).is_some() {
